@@ -3,6 +3,6 @@ CONSTANTS
   Accts = {"A1", "A2"}
   Names = {"A", "B"}
   Srcs = {"v1", "v2", "retyped", "enum", "iface", "typeerr", "mismatch", "syntax"}
-  MaxOps = 3
+  MaxOps = 4
   MaxTx = 1000
 INVARIANTS TypeOK OnlyValidDeployed ValueFitsCode IdleMeansClean SimEmit
